@@ -10,10 +10,10 @@ PROP = "C23"
 L = "Claripy.VSA."
 P = "Claripy.Props.C23."
 THEOREMS = [P + n for n in ("C23_lift2", "C23_lift1", "C23_collapse", "C23_normalize", "C23_valueset_per_region",
-                            "C23_dsis_add_sound", "C23_collapse_sound", "C23_normalize_sound", "C23_dsis_add")] + \
+                            "C23_dsis_add_sound", "C23_collapse_sound", "C23_normalize_sound", "C23_dsis_add", "C23_dsis_min_max_bound")] + \
            [L + "joinOK"] + \
            [L + n for n in ("lift2_sound", "lift1_sound", "collapse_sound", "normalize_sound", "finishSet_sound",
-                            "mapRegions_sound", "applyEach2_sound", "dedupe_mem", "permute_mem", "foldl_join_sup", "dsis_card_zero")]
+                            "mapRegions_sound", "applyEach2_sound", "dedupe_mem", "permute_mem", "foldl_join_sup", "dsis_card_zero", "dsis_min_le", "dsis_le_max")]
 TESTS = [P + "test_lift_example"]
 
 PY_METHOD = {"add": "__add__", "sub": "__sub__", "and": "__and__", "or": "__or__", "xor": "__xor__", "mod": "__mod__",
